@@ -472,7 +472,9 @@ fn budget(prop: &str, tier: &str) -> Budget {
     let runs = env_runs.unwrap_or(if second { quick * 6 } else if tier == "thorough" { quick * 30 } else { quick });
     Budget {
         runs,
-        watchdog: Duration::from_secs(if matches!(prop, "C14" | "C07" | "C12" | "C08") { 120 } else { 60 }),
+        // (runs with thousands of revisions, components or rights take 10-20 s on an idle machine
+        // and several times that when other checks run alongside)
+        watchdog: Duration::from_secs(120),
         wall_cap: Duration::from_secs(if tier == "thorough" { 3000 } else { 600 }),
     }
 }
